@@ -120,12 +120,19 @@ func argText(s Stmt) (string, bool) {
 		var qs []QN
 		json.Unmarshal(s.Arg, &qs)
 		r := ""
+		rel := len(qs) > 0 && qs[0].P == "rel" // a descendant-form path: no leading slash
+		if rel {
+			qs = qs[1:]
+		}
 		for _, q := range qs {
 			if q.P == "" {
 				r += "/" + q.N
 			} else {
 				r += "/" + q.P + ":" + q.N
 			}
+		}
+		if rel {
+			r = strings.TrimPrefix(r, "/")
 		}
 		return r, true
 	default: // a number
